@@ -3,9 +3,9 @@
    The model carries the handshake stage of every connection (start -> tune -> tune-ok -> open); the outcome of the three
    checks it does not compute (PLAIN + a configured user's password; limits within the server's; an existing virtual
    host) is a bit on the label, computed by the harness from what it really sent and compared with the broker's
-   behaviour by the correspondence.  PARTIAL: the theorems speak about the frames of the connection itself; that the
-   labels of OTHER connections and the internal labels leave the stage of this connection alone is covered by the
-   correspondence and the monitor, not proved. *)
+   behaviour by the correspondence.  The theorems of this file speak about the frames of the connection itself; that the
+   labels of OTHER connections and the internal labels leave this connection alone, and that it is invisible to them
+   until it is opened - for all interleavings - is Props/C10_history.v. *)
 From Coq Require Import List String NArith ZArith Bool.
 Import ListNotations.
 From GMQ Require Import Broker.Model Proofs.BrokerFrames Proofs.BrokerTags Proofs.BrokerChanInv Proofs.BrokerRelease
